@@ -36,7 +36,8 @@ Definition okind_eqb (a b : okind) : bool :=
   match a, b with KSuccess, KSuccess | KUxSuccess, KUxSuccess => true | _, _ => false end.
 Definition exn_eqb (a b : exn) : bool :=
   match a, b with
-  | AttributeError, AttributeError | ValueError, ValueError | TypeError, TypeError | OtherError, OtherError => true
+  | AttributeError, AttributeError | ValueError, ValueError | TypeError, TypeError | OtherError, OtherError
+  | CallbackError, CallbackError => true
   | _, _ => false
   end.
 Definition sum_eqb {A B} (ea : A -> A -> bool) (eb : B -> B -> bool) (x y : A + B) : bool :=
@@ -282,7 +283,7 @@ Definition CbSpec (e c : cb) : Prop :=
 Fixpoint spec_leaves (a : adapter) : list (leaf * list tag_change) :=
   match a with
   | Target c => [(LfTarget c, [])]
-  | ByTest => [(LfByTest, [])]
+  | ByTest bad => [(LfByTest bad, [])]
   | E2O a' | Deco a' => spec_leaves a'
   | Multi l => flat_map spec_leaves l
   | Tagger n g a' => map (fun p => (fst p, snd p ++ [(n, g)])) (spec_leaves a')
@@ -298,33 +299,36 @@ Fixpoint forall2b {A B} (p : A -> B -> bool) (l : list A) (m : list B) : bool :=
 Definition leaf_okb (h : list call) (lt : leaf * list tag_change) (lo : leaf_obs) : bool :=
   match fst lt, lo with
   | LfTarget c, OLog l => forall2b (delivered_ok c) (bracket h) (bracket l)
-  | LfByTest, OCbs cbs => forall2b cb_ok (expected_cbs (snd lt) sst_init h) cbs
+  | LfByTest _, OCbs cbs => forall2b cb_ok (expected_cbs (snd lt) sst_init h) cbs
   | _, _ => false
   end.
 Definition LeafSpec (h : list call) (lt : leaf * list tag_change) (lo : leaf_obs) : Prop :=
   match fst lt, lo with
   | LfTarget c, OLog l => Forall2 (Delivered c) (bracket h) (bracket l)
-  | LfByTest, OCbs cbs => Forall2 CbSpec (expected_cbs (snd lt) sst_init h) cbs
+  | LfByTest _, OCbs cbs => Forall2 CbSpec (expected_cbs (snd lt) sst_init h) cbs
   | _, _ => False
   end.
 
-(* only done() / progress() may raise, and only AttributeError (they do not exist on every class) *)
-Definition raised_okb (h : list call) (r : list (nat * exn)) : bool :=
-  forallb (fun x => exn_eqb (snd x) AttributeError
-                    && match nth_error h (fst x) with
-                       | Some Done | Some (Progress _ _) => true
-                       | _ => false
-                       end) r.
-Definition RaisedSpec (h : list call) (r : list (nat * exn)) : Prop :=
+(* only done() / progress() may raise on their own, and only AttributeError (they do not exist on every
+   class); what an on_test raises (CallbackError) comes out of the stopTest of a test it raises for *)
+Definition bad_for (ls : list leaf) (t : test) : bool := existsb (fun lf => leaf_bad lf t) ls.
+Definition raised_okb (ls : list leaf) (h : list call) (r : list (nat * exn)) : bool :=
+  forallb (fun x => match nth_error h (fst x) with
+                    | Some Done | Some (Progress _ _) => exn_eqb (snd x) AttributeError
+                    | Some (StopTest t) => exn_eqb (snd x) CallbackError && bad_for ls t
+                    | _ => false
+                    end) r.
+Definition RaisedSpec (ls : list leaf) (h : list call) (r : list (nat * exn)) : Prop :=
   forall j e, In (j, e) r ->
-    e = AttributeError /\ (nth_error h j = Some Done \/ exists o w, nth_error h j = Some (Progress o w)).
+    (e = AttributeError /\ (nth_error h j = Some Done \/ exists o w, nth_error h j = Some (Progress o w)))
+    \/ (e = CallbackError /\ exists t, nth_error h j = Some (StopTest t) /\ bad_for ls t = true).
 
 Definition spec_okb (i : input) (o : obs) : bool :=
-  raised_okb (hist i) (o_raised o)
+  raised_okb (map fst (spec_leaves (stack i))) (hist i) (o_raised o)
   && forall2b (leaf_okb (hist i)) (spec_leaves (stack i)) (o_leaves o).
 
 Definition Spec (i : input) (o : obs) : Prop :=
-  RaisedSpec (hist i) (o_raised o)
+  RaisedSpec (map fst (spec_leaves (stack i))) (hist i) (o_raised o)
   /\ Forall2 (LeafSpec (hist i)) (spec_leaves (stack i)) (o_leaves o).
 
 (* ---------- well-formed inputs ---------- *)
@@ -335,7 +339,7 @@ Definition ext_ok (a : adapter) : bool := match a with Target c => ext_caps c | 
 (* TestResultDecorator / Tagger forward the extended protocol as it is: what they decorate must speak it *)
 Fixpoint wf_stack (a : adapter) : bool :=
   match a with
-  | Target _ | ByTest => true
+  | Target _ | ByTest _ => true
   | E2O a' => wf_stack a'
   | Multi l => negb (is_nil l) && forallb wf_stack l     (* MultiTestResult() without results cannot be constructed *)
   | Deco a' | Tagger _ _ a' => ext_ok a' && wf_stack a'
@@ -377,8 +381,27 @@ Fixpoint bracketed_from (p : phase) (h : list call) : bool :=
       end
   end.
 
+(* Outside the statement: a wrapped result that raises while other results are still to be called.
+   MultiTestResult._dispatch stops at the first member that raises, so when the on_test of a
+   TestByTestResult raises for a test, every result dispatched to after it never gets that stopTest.  The
+   property quantifies over histories, stacks and target flavours, not over faulty wrapped results, and does
+   not say what a multiplexer should propagate; an on_test that raises where NO result comes after it is
+   inside.  [fault_reaches_sibling]: some stopTest of the history is for a test that a TestByTestResult with
+   a result to its right raises for. *)
+Fixpoint abort_reaches (ls : list leaf) (t : test) : bool :=
+  match ls with
+  | [] => false
+  | lf :: r => (leaf_bad lf t && negb (is_nil r)) || abort_reaches r t
+  end.
+Definition fault_reaches_sibling (i : input) : bool :=
+  existsb (fun c => match c with
+                    | StopTest t => abort_reaches (map fst (spec_leaves (stack i))) t
+                    | _ => false
+                    end) (hist i).
+
 Definition wfb (i : input) : bool :=
-  ext_ok (stack i) && wf_stack (stack i) && forallb call_okb (hist i) && bracketed_from Outside (hist i).
+  ext_ok (stack i) && wf_stack (stack i) && forallb call_okb (hist i) && bracketed_from Outside (hist i)
+  && negb (fault_reaches_sibling i).
 Definition wf (i : input) : Prop := wfb i = true.
 
 (* no finding is delimited for C08: F9 and the empty-details defect of TestByTestResult are repaired *)
